@@ -14,7 +14,8 @@ from gen import model as M, values as V, refcodec as R
 from streamworld import sw, pynode as P, cppnode as C, runner
 
 PROP = "C15"
-EDITS = ["field_type", "field_order", "enum_base", "vector_length", "union_order", "field_name", "make_optional", "enum_value", "map_key"]
+EDITS = ["field_type", "field_order", "enum_base", "vector_length", "union_order", "field_name", "make_optional", "enum_value", "map_key",
+         "imported_shadowed_type", "imported_type", "generic_argument"]
 
 
 def add_steering(pkg):
@@ -24,9 +25,20 @@ def add_steering(pkg):
         ("alpha", M.Prim("int32")), ("beta", M.Prim("int32")), ("gamma", M.Prim("string")), ("delta", M.Named("SteerEnumQ")),
         ("epsilon", M.Vec(M.Prim("uint16"), 2)), ("zeta", M.Union((("int32", M.Prim("int32")), ("string", M.Prim("string"))))),
         ("eta", M.Map(M.Prim("string"), M.Prim("int32")))]))
+    pkg.files[fn].append(M.Record("SteerGenQ", ("T",), [("tag", M.Prim("int32")), ("payload", M.TParam("T"))]))
+    # an imported package whose type is re-exported under the same simple name (the idiom of yardl's own
+    # test model: `Fruits: BasicTypes.Fruits`), and one that is used under its qualified name
+    lib = M.Package("Steerlib", "imp_steerlib", {"lib.yml": [
+        M.Record("SteerShadow", (), [("value", M.Prim("int32")), ("label", M.Prim("string"))]),
+        M.Record("SteerPlain", (), [("value", M.Prim("int32"))])]})
+    pkg.imports.append(lib)
+    pkg.files[fn].append(M.Alias("SteerShadow", (), M.Named("SteerShadow", (), "Steerlib")))
     for d in pkg.defs():
         if isinstance(d, M.Protocol):
             d.steps.append(("steerq", M.Named("SteerRecQ"), False))
+            d.steps.append(("steershadow", M.Named("SteerShadow"), False))
+            d.steps.append(("steerplain", M.Named("SteerPlain", (), "Steerlib"), False))
+            d.steps.append(("steergen", M.Named("SteerGenQ", (M.Prim("int32"),)), False))
 
 
 def near_identical(pkg, edit):
@@ -50,6 +62,14 @@ def near_identical(pkg, edit):
         rec.fields = [("alpha2" if n == "alpha" else n, t) for n, t in rec.fields]
     elif edit == "make_optional":
         rec.fields = [(n, M.Opt(t) if n == "gamma" else t) for n, t in rec.fields]
+    elif edit in ("imported_shadowed_type", "imported_type"):
+        lib = [p for p in b.imports if p.namespace == "Steerlib"][0]
+        r = lib.find("SteerShadow" if edit == "imported_shadowed_type" else "SteerPlain")
+        r.fields = [(n, M.Prim("float32") if n == "value" else t) for n, t in r.fields]
+    elif edit == "generic_argument":
+        for d in b.defs():
+            if isinstance(d, M.Protocol):
+                d.steps = [(n, M.Named("SteerGenQ", (M.Prim("uint32"),)) if n == "steergen" else t, st) for n, t, st in d.steps]
     elif edit == "map_key":
         rec.fields = [(n, M.Map(M.Prim("string"), M.Prim("int64")) if n == "eta" else t) for n, t in rec.fields]
     return b
@@ -162,7 +182,12 @@ def model_task(task, ybin, root):
                 stats["baseline_unreadable(skipped)"] = stats.get("baseline_unreadable(skipped)", 0) + 1
                 continue
             jobs = []   # (what, class, fmt, payload)
-            if proto.name in a_streams and a_streams[proto.name][2] != schema:
+            if proto.name in a_streams:
+                # every protocol carries the steering steps, so A and B always differ in how some value is
+                # encoded; if their schema texts are nevertheless equal the reader has no way to refuse, and
+                # that is exactly "decoding a foreign stream as if it were its own"
+                if a_streams[proto.name][2] == schema:
+                    stats["near_identical_models_with_identical_schema_text"] = stats.get("near_identical_models_with_identical_schema_text", 0) + 1
                 jobs.append(("stream of the near-identical protocol (%s) delivered" % edit, "misdelivery_near_identical", "binary", a_streams[proto.name][0]))
                 jobs.append(("NDJSON stream of the near-identical protocol (%s) delivered" % edit, "misdelivery_near_identical", "ndjson", a_streams[proto.name][1]))
             for other in protos:
